@@ -113,11 +113,13 @@ def is_visible_root(root):
 # ----------------------------------------------------------------------------
 class AV:
     __slots__ = ("origins", "deps", "const", "elts", "cls", "ref", "items",
-                 "must_keys", "arr", "ckw", "rng")
+                 "must_keys", "arr", "ckw", "rng", "nn", "eor")
 
     def __init__(self, origins=FS(), deps=FS(), const=NOCONST, elts=None,
                  cls=FS(), ref=FS(), items=None, must_keys=FS(), arr=False,
-                 ckw=None, rng=False):
+                 ckw=None, rng=False, nn=False, eor=FS()):
+        self.nn = nn
+        self.eor = eor
         self.origins = origins
         self.deps = deps | origins
         self.const = const
@@ -149,6 +151,8 @@ class AV:
             self.arr,
             self.ckw.sig() if self.ckw is not None else None,
             self.rng,
+            self.nn,
+            self.eor,
         )
 
     def __repr__(self):
@@ -190,6 +194,18 @@ def fmt_origin(o):
 
 
 FRESH = AV()
+
+
+def elem_origins(av):
+    """Origins of the elements of container `av` (objects, not array cells)."""
+    out = set(av.eor)
+    if not av.arr:
+        for (r, pth) in av.origins:
+            out.add((r, pth + ("[]",)))
+    if av.elts:
+        for x in av.elts:
+            out |= x.origins
+    return FS(out)
 
 
 def join(a, b):
@@ -237,6 +253,8 @@ def join(a, b):
         arr=a.arr or b.arr,
         ckw=ckw,
         rng=a.rng or b.rng,
+        nn=a.nn and b.nn,
+        eor=a.eor | b.eor,
     )
 
 
@@ -258,7 +276,7 @@ def env_sig(env):
     return tuple(sorted((k, v.sig()) for k, v in env.items()))
 
 
-def derived(*avs, extra=FS()):
+def derived(*avs, extra=FS(), nn=False):
     d = set(extra)
     for a in avs:
         if a is not None:
@@ -269,7 +287,7 @@ def derived(*avs, extra=FS()):
             if a.items:
                 for e in a.items.values():
                     d |= e.deps
-    return AV(deps=FS(d))
+    return AV(deps=FS(d), nn=nn)
 
 
 class Event:
@@ -363,15 +381,21 @@ class Interp:
         self.class_hints = class_hints or {}
         self.heap_changed = False
         self.entity_params = ()
+        self._recorders = []
 
     # ------------------------------------------------------------- events
     def emit(self, kind, node, frame, **data):
         ev = Event(kind, node, frame, **data)
-        k = ev.key() + (tuple(id(c) for _, c in frame.stack[-2:]),)
+        self._emit_ev(ev)
+
+    def _emit_ev(self, ev):
+        k = ev.key() + (tuple(id(c) for _, c in ev.stack),)
         if k in self._seen_events:
             return
         self._seen_events.add(k)
         self.events.append(ev)
+        for rec in self._recorders:
+            rec.append(ev)
 
     # --------------------------------------------------------------- heap
     def heap_read(self, root, path):
@@ -644,8 +668,14 @@ class Interp:
                 out = join(out, h)
         res = AV(origins=FS(origins), deps=base.deps - base.origins)
         if out is not None:
+            keep = out.const
             res = join(res, out)
-            res = res.replace(const=NOCONST)
+            only = list(base.origins)
+            if len(only) == 1 and only[0][0].startswith("obj:"):
+                # locally constructed object: all stores are seen
+                res = res.replace(const=keep)
+            else:
+                res = res.replace(const=NOCONST)
         return res
 
     # ---- control flow
@@ -685,6 +715,25 @@ class Interp:
             return None
 
     def refine(self, test, pol, frame):
+        t = test
+        p0 = pol
+        while isinstance(t, ast.UnaryOp) and isinstance(t.op, ast.Not):
+            t = t.operand
+            p0 = not p0
+        if isinstance(t, ast.BoolOp) and ((isinstance(t.op, ast.Or) and p0) or
+                                          (isinstance(t.op, ast.And) and not p0)):
+            # exactly one operand of unknown truth: it decides
+            unknown = []
+            for v in t.values:
+                tv = self.truth(self.eval(v, frame))
+                if tv is None:
+                    unknown.append(v)
+                elif tv == p0:
+                    unknown = None
+                    break
+            if unknown is not None and len(unknown) == 1:
+                self.refine(unknown[0], p0, frame)
+            return
         for (e, p) in guard_atoms(test, pol):
             if isinstance(e, ast.Compare) and len(e.ops) == 1:
                 op = e.ops[0]
@@ -695,7 +744,12 @@ class Interp:
                     if (eq and p) or (ne and not p):
                         cur = frame.env.get(l.id)
                         if cur is not None:
-                            frame.env[l.id] = cur.replace(const=r.value)
+                            if r.value is None:
+                                # None has no mutable identity: drop aliases,
+                                # keep provenance (who chose the None)
+                                frame.env[l.id] = AV(const=None, deps=cur.deps)
+                            else:
+                                frame.env[l.id] = cur.replace(const=r.value)
                         else:
                             frame.env[l.id] = AV(const=r.value)
                 if isinstance(l, ast.Constant) and isinstance(l.value, str) \
@@ -786,7 +840,10 @@ class Interp:
             return part or FRESH
         if it.items is not None:
             return AV(deps=it.deps)
-        return AV(origins=it.origins, deps=it.deps, arr=it.arr or bool(it.origins))
+        if it.arr:
+            return AV(origins=it.origins, deps=it.deps, arr=True)
+        eo = elem_origins(it)
+        return AV(origins=eo, deps=it.deps | eo)
 
     def s_Try(self, st, frame):
         env0 = dict(frame.env)
@@ -950,9 +1007,21 @@ class Interp:
         if base.items is not None and idx.const is not NOCONST and isinstance(idx.const, str):
             if idx.const in base.items and base.items[idx.const] is not None:
                 return base.items[idx.const]
-        if self.is_basic_index(e.slice):
+        if isinstance(e.slice, ast.Slice) or (isinstance(e.slice, ast.Tuple) and self.is_basic_index(e.slice)):
+            return AV(origins=base.origins, deps=base.deps | idx.deps, arr=base.arr or isinstance(e.slice, ast.Tuple),
+                      eor=base.eor)
+        if self.is_basic_index(e.slice) and base.arr:
             return AV(origins=base.origins, deps=base.deps | idx.deps, arr=True)
-        return AV(deps=base.deps | idx.deps, arr=base.arr)
+        if base.arr:
+            return AV(deps=base.deps | idx.deps, arr=True)
+        if base.elts is not None:
+            out = None
+            for x in base.elts:
+                out = join(out, x)
+            if out is not None:
+                return out.replace(deps=out.deps | idx.deps | base.deps, const=NOCONST)
+        eo = elem_origins(base)
+        return AV(origins=eo, deps=base.deps | idx.deps | eo)
 
     def is_basic_index(self, s):
         if isinstance(s, ast.Slice):
@@ -982,9 +1051,11 @@ class Interp:
             else:
                 elts.append(v)
         d = set()
+        eo = set()
         for v in elts:
             d |= v.deps
-        return AV(elts=tuple(elts), deps=FS(d))
+            eo |= v.origins
+        return AV(elts=tuple(elts), deps=FS(d), eor=FS(eo), nn=True)
 
     e_List = e_Tuple
 
@@ -1017,7 +1088,7 @@ class Interp:
     def e_BinOp(self, e, frame):
         l = self.eval(e.left, frame)
         r = self.eval(e.right, frame)
-        res = derived(l, r)
+        res = derived(l, r, nn=True)
         if isinstance(e.op, ast.Add) and l.elts is not None and r.elts is not None:
             res = res.replace(elts=l.elts + r.elts)
         if l.const is not NOCONST and r.const is not NOCONST:
@@ -1030,6 +1101,9 @@ class Interp:
                     res = res.replace(const=l.const * r.const)
             except Exception:
                 pass
+        if isinstance(e.op, (ast.Mult, ast.Add)) and (l.elts is not None or r.elts is not None):
+            res = res.replace(eor=elem_origins(l) | elem_origins(r) if (l.elts is not None and r.elts is not None)
+                              else (elem_origins(l) if l.elts is not None else elem_origins(r)))
         return res.replace(arr=l.arr or r.arr)
 
     def e_UnaryOp(self, e, frame):
@@ -1117,6 +1191,8 @@ class Interp:
         return res
 
     def definitely_not_none(self, av):
+        if av.nn or (av.const is not NOCONST and av.const is not None):
+            return True
         return av.const is NOCONST and (
             av.items is not None or av.elts is not None or
             (bool(av.cls) and not av.origins - FS(o for o in av.origins if o[0].startswith("obj:")))
@@ -1331,8 +1407,9 @@ class Interp:
                 must.add(k)
                 deps |= v.deps
             return AV(items=items, must_keys=FS(must), deps=FS(deps))
-        if name in ("list", "tuple") and a0 is not None:
-            return AV(elts=a0.elts, deps=a0.deps)
+        if name in ("list", "tuple", "sorted", "reversed", "set", "frozenset") and a0 is not None:
+            return AV(elts=a0.elts if name in ("list", "tuple") else None, deps=a0.deps,
+                      eor=elem_origins(a0), nn=True)
         if name in ("isinstance", "hasattr", "callable", "len", "type", "id", "print",
                     "int", "float", "str", "bool", "abs", "min", "max", "sum", "any",
                     "all", "sorted", "range", "enumerate", "zip", "set", "frozenset",
@@ -1343,7 +1420,8 @@ class Interp:
                     "RuntimeError", "Warning", "UserWarning", "Exception",
                     "DeprecationWarning", "FutureWarning", "RuntimeWarning", "StopIteration",
                     "bytes", "complex", "ord", "chr", "open", "input", "locals", "globals"):
-            res = derived(*args, *kwargs.values())
+            res = derived(*args, *kwargs.values(), nn=name in (
+                "int", "float", "str", "bool", "len", "abs", "sum", "sorted", "range", "set", "round", "isinstance", "hasattr"))
             if name in ("int", "float", "bool", "str") and a0 is not None and a0.const is not NOCONST:
                 try:
                     res = res.replace(const={"int": int, "float": float, "bool": bool, "str": str}[name](a0.const))
@@ -1464,19 +1542,34 @@ class Interp:
         key = (id(fi.node), selfcls.name if selfcls else None,
                self_av.sig() if self_av is not None else None, env_sig(env),
                id(closure) if closure is not None else None)
+        new_stack = frame.stack + ((frame.fi, e),)
+        new_guards = frame.all_guards()
         if key in self.memo:
-            return self.memo[key]
-        self.memo[key] = derived(*args, *kwargs.values())  # provisional (recursion)
+            ret, evs, old_ns, old_ng = self.memo[key]
+            if evs is not None:
+                for ev in evs:
+                    ne = Event.__new__(Event)
+                    ne.kind, ne.node, ne.fi, ne.data, ne.nlocal = ev.kind, ev.node, ev.fi, ev.data, ev.nlocal
+                    ne.stack = new_stack + ev.stack[old_ns:]
+                    ne.guards = tuple(new_guards) + tuple(ev.guards[old_ng:])
+                    self._emit_ev(ne)
+            return ret
+        self.memo[key] = (derived(*args, *kwargs.values()), None, 0, 0)  # provisional (recursion)
         fr = Frame(self, fi, selfcls if is_method else (closure.selfcls if closure else None),
                    self_av if is_method else (closure.self_av if closure else None), env,
-                   frame.stack + ((frame.fi, e),), frame.all_guards(), closure=closure)
-        self.walk_body(fi.node.body, fr)
+                   new_stack, new_guards, closure=closure)
+        rec = []
+        self._recorders.append(rec)
+        try:
+            self.walk_body(fi.node.body, fr)
+        finally:
+            self._recorders.pop()
         ret = None
         for r in fr.rets:
             ret = join(ret, r)
         if ret is None:
             ret = AV(const=None)
-        self.memo[key] = ret
+        self.memo[key] = (ret, rec, len(new_stack), len(new_guards))
         return ret
 
     def is_static(self, fi):
@@ -1547,7 +1640,11 @@ class Interp:
                     and isinstance(e.func.value, ast.Name) and e.func.value.id in frame.env:
                 # contents now depend on the argument
                 cur = frame.env[e.func.value.id]
-                frame.env[e.func.value.id] = cur.replace(deps=cur.deps | derived(*args).deps, elts=None)
+                eo = set(cur.eor)
+                for a in args:
+                    eo |= a.origins if name != "extend" else elem_origins(a)
+                frame.env[e.func.value.id] = cur.replace(deps=cur.deps | derived(*args).deps, elts=None,
+                                                         eor=FS(eo))
             if name in ("update", "setdefault", "pop", "clear", "popitem") and isinstance(e.func, ast.Attribute) \
                     and isinstance(e.func.value, ast.Name) and e.func.value.id in frame.env \
                     and recv.items is not None:
@@ -1581,7 +1678,7 @@ class Interp:
         if name == "copy":
             return AV(deps=recv.deps, items=dict(recv.items) if recv.items is not None else None,
                       must_keys=recv.must_keys, cls=recv.cls, ckw=recv.ckw, arr=recv.arr,
-                      elts=recv.elts, rng=recv.rng)
+                      elts=recv.elts, rng=recv.rng, eor=elem_origins(recv), nn=True)
         if name == "get" and recv.items is not None and args and args[0].const is not NOCONST \
                 and args[0].const in recv.items and recv.items[args[0].const] is not None:
             v = recv.items[args[0].const]
@@ -1625,10 +1722,13 @@ class Interp:
             if seed is None:
                 return FRESH
             if seed.const is None:
-                return AV(deps=FS(["global_rng"]), rng=True)
+                if any(isinstance(o, tuple) and is_visible_root(o[0]) for o in seed.deps):
+                    # None chosen by the caller (outside the property's premise)
+                    return AV(deps=seed.deps | FS(["user_none"]), rng=True, nn=True)
+                return AV(deps=FS(["global_rng"]), rng=True, nn=True)
             if seed.const is not NOCONST:
-                return AV(deps=FS(["const_seed"]), rng=True)
-            return seed.replace(rng=True, const=NOCONST)
+                return AV(deps=FS(["const_seed"]), rng=True, nn=True)
+            return seed.replace(rng=True, const=NOCONST, nn=True)
         if dotted in ALIAS_FUNCS and a0 is not None:
             cp = kwargs.get("copy")
             if cp is not None and cp.const is True:
@@ -1643,9 +1743,11 @@ class Interp:
         if dotted in FRESH_COPY_FUNCS and a0 is not None:
             if dotted == "numpy.array" and "copy" in kwargs and kwargs["copy"].const is False:
                 return AV(origins=a0.origins, deps=res.deps, arr=True)
+            shallow = dotted == "copy.copy"
             return AV(deps=a0.deps, items=dict(a0.items) if a0.items is not None else None,
                       must_keys=a0.must_keys, cls=a0.cls, ckw=a0.ckw, arr=a0.arr or dotted.startswith("numpy."),
-                      elts=a0.elts if dotted != "numpy.array" else None, rng=a0.rng)
+                      elts=a0.elts if shallow else None, rng=a0.rng, nn=True,
+                      eor=elem_origins(a0) if shallow else FS())
         if dotted == "functools.partial" and a0 is not None:
             return a0
         # class constructor of an external estimator (capitalised last part)
